@@ -546,6 +546,54 @@ def main():
     except Exception as e:  # pylint: disable=broad-except
       rep.violation(f"hand-frozen-raises-{i}", f"export of a model with a hand-frozen float32 scale raised {type(e).__name__}: {str(e)[:200]}", {})
   rep.note(hand_frozen_float32_scale_models=n_hand, hand_frozen_ok=n_hand_ok)
+  # ---- ONE quantizer object serving two weight slots of a layer (QDense(kernel_quantizer=q, bias_quantizer=q), a separable
+  # convolution with q for depthwise and pointwise): a quantizer remembers only the scale of its LAST call, so every slot must be
+  # described with the scale of ITS OWN quantization: scale * integer weight = stored weight, integers inside the bit range
+  n_sh = n_sh_ok = 0
+  for i in range(4 if rep.tier == "quick" else 16):
+    try:
+      bits_ = int([4, 6, 5, 8][i % 4])
+      mk = lambda: QZ.quantized_bits(bits_, 0, 1, alpha="auto_po2")
+      q_sh = mk()
+      if i % 2 == 0:
+        i_ = Input((6,), name=f"shin{i}")
+        lay = qkeras.QDense(3, kernel_quantizer=q_sh, bias_quantizer=q_sh, name=f"shd{i}")
+        sm = Model(i_, lay(i_))
+        ws = [rng.normal(0, 0.3, size=(6, 3)).astype(np.float32), rng.normal(0, 6.0, size=(3,)).astype(np.float32)]
+      else:
+        i_ = Input((6, 6, 3), name=f"shin{i}")
+        lay = qkeras.QSeparableConv2D(4, 3, use_bias=False, depthwise_quantizer=q_sh, pointwise_quantizer=q_sh, name=f"shs{i}")
+        sm = Model(i_, lay(i_))
+        ws = [rng.normal(0, 0.2, size=(3, 3, 3, 1)).astype(np.float32), rng.normal(0, 5.0, size=(1, 1, 3, 4)).astype(np.float32)]
+      sm.set_weights(ws)
+      rep.count(("shared-quantizer-object", bits_, i % 2, i))
+      d_ = U.model_save_quantized_weights(sm)[lay.name]
+      n_sh += 1
+      why = None
+      for j, w_ in enumerate(ws):
+        fresh = mk()
+        wq_ = fresh(tf.constant(w_)).numpy()
+        # the dictionary holds scale * 2^integer / 2^(unsigned bits), so that scale * integer weight is the stored weight
+        sc_ = (np.asarray(fresh.scale.numpy() if hasattr(fresh.scale, "numpy") else fresh.scale, dtype=np.float32) * np.float32(1.0) / np.float32(2.0 ** (bits_ - 1))).astype(np.float32)
+        ew, es = np.asarray(d_["weights"][j]), np.asarray(d_["scales"][j], dtype=np.float32)
+        if ew.shape != w_.shape:
+          why = f"slot {j}: exported integer weight has shape {ew.shape}, the weight has shape {w_.shape}"
+        elif es.size != sc_.size or not same_bits(es.reshape(sc_.shape), sc_):
+          why = f"slot {j}: exported scale {es.ravel()[:4]} is not the scale of this slot's own quantization {sc_.ravel()[:4]}"
+        elif not same_bits((ew * es.reshape(sc_.shape)).astype(np.float32), wq_):
+          why = f"slot {j}: scale * integer weight differs from the quantizer applied once to this weight"
+        elif np.any(ew != np.round(ew)) or np.max(np.abs(ew)) > 2 ** (bits_ - 1):
+          why = f"slot {j}: exported integer weights {ew.ravel()[:4]} are not integers of a {bits_}-bit format"
+        if why:
+          break
+      if why:
+        rep.violation(f"shared-quantizer-object-{i}", f"{type(lay).__name__} whose two weight slots share ONE quantized_bits({bits_},0,1,alpha='auto_po2') object: {why}",
+                      {"bits": bits_, "layer": type(lay).__name__})
+      else:
+        n_sh_ok += 1
+    except Exception as e:  # pylint: disable=broad-except
+      rep.violation(f"shared-quantizer-object-raises-{i}", f"export of a layer whose slots share one quantizer object raised {type(e).__name__}: {str(e)[:200]}", {})
+  rep.note(shared_quantizer_object_models=n_sh, shared_quantizer_object_ok=n_sh_ok)
   try:
     from tensorflow.keras import Sequential
     sq = Sequential([Input((5,), name="sin"), qkeras.QDense(2, kernel_quantizer="quantized_bits(6,1,1,alpha='auto_po2')", name="sqd")])
